@@ -511,6 +511,21 @@ func runRBCAttack(r *prng, id int) *jScenario {
 	if n > 3 && r.chance(1, 2) {
 		nh = 3
 	}
+	// twins: a second Byzantine member whose identifier differs from the sender's in the high byte only (an acknowledgement
+	// about one must never count for the other, whatever an encoder or a table key does with 16-bit identifiers)
+	twins := false
+	if n-nh >= 2 && r.chance(1, 3) {
+		tw := members[nh] ^ 0x0100
+		clash := false
+		for _, x := range ids {
+			if x == tw {
+				clash = true
+			}
+		}
+		if !clash {
+			members[nh+1], twins = tw, true
+		}
+	}
 	honest := append([]uint16(nil), members[:nh]...)
 	byz := append([]uint16(nil), members[nh:]...)
 	sender := byz[0]
@@ -549,6 +564,30 @@ func runRBCAttack(r *prng, id int) *jScenario {
 			w.deliver(flight{to: honest[1], from: sender, data: wirePayload(a), kind: "bbcast"})
 			w.deliver(flight{to: honest[0], from: sender, data: wirePayload(b), kind: "bbcast"})
 		}
+		steps = r.intn(4)
+	} else if twins && r.chance(2, 3) {
+		// crossed twins: the sender shows A to the first honest party and B to the second; its twin broadcasts, as its own
+		// message of the same round, B to the first and A to the second, and vouches for the sender's payload towards each.
+		// The honest parties' acknowledgements about the TWIN's message then carry exactly the digest the other party holds
+		// for the SENDER: they must not be taken for vouchers about the sender.
+		a, b := mkPayload(r, round, true), mkPayload(r, round, true)
+		pay[honest[0]], pay[honest[1]] = a, b
+		twin := byz[1]
+		w.deliver(flight{to: honest[0], from: twin, data: wirePayload(b), kind: "bbcast"})
+		w.deliver(flight{to: honest[1], from: twin, data: wirePayload(a), kind: "bbcast"})
+		for guard := 0; len(w.pool) > 0 && guard < 200; guard++ {
+			f := w.pool[0]
+			w.pool = w.pool[1:]
+			w.deliver(f)
+		}
+		w.deliver(flight{to: honest[0], from: twin, data: wireAck(sha(a), sender, round), kind: "back"})
+		w.deliver(flight{to: honest[1], from: twin, data: wireAck(sha(b), sender, round), kind: "back"})
+		for _, x := range byz[2:] {
+			w.deliver(flight{to: honest[0], from: x, data: wireAck(sha(a), sender, round), kind: "back"})
+			w.deliver(flight{to: honest[1], from: x, data: wireAck(sha(b), sender, round), kind: "back"})
+		}
+		w.deliver(flight{to: honest[0], from: sender, data: wirePayload(a), kind: "bbcast"})
+		w.deliver(flight{to: honest[1], from: sender, data: wirePayload(b), kind: "bbcast"})
 		steps = r.intn(4)
 	} else if r.chance(1, 3) {
 		// split vouchers: every honest party gets its own payload from the sender and, before any honest acknowledgement
